@@ -209,6 +209,9 @@ static void mk_fs(void) {
 	IN_ARR(char, fp, NFILES); IN_ARR(char, fx, NFILES);
 	for (size_t f = 0; f < NFILES; f++) {
 		ASSUME(fp[f] != 0 && fp[f] != '/' && fx[f] != 0 && fx[f] != '}' && fx[f] != '{');
+#ifdef CONCRETE_GRAPH   /* file f is "/a"+f and includes file (f+1) mod NFILES: self-inclusion for NFILES==1, an NFILES-cycle otherwise */
+		ASSUME(fp[f] == 'a' + (char) f && fx[f] == 'a' + (char) ((f + 1) % NFILES));
+#endif
 		g_fpath[f][0] = '/'; g_fpath[f][1] = fp[f]; g_fpath[f][2] = 0;
 		g_fdata[f][0] = '{'; g_fdata[f][1] = '{'; g_fdata[f][2] = fx[f]; g_fdata[f][3] = '}'; g_fdata[f][4] = '}'; g_fdata[f][5] = 0;
 	}
@@ -227,6 +230,9 @@ void h_graph(void) {
 	/* top-level source: <c0>{{<x>}}<c1> with three symbolic bytes (text before and after the marker) */
 	IN(char, x0); IN(char, c0); IN(char, c1);
 	ASSUME(x0 != 0 && x0 != '}' && x0 != '{' && c0 != 0 && c0 != '{' && c1 != 0 && c1 != '{');
+#ifdef CONCRETE_GRAPH
+	ASSUME(x0 == 'a' && c0 == '<' && c1 == '>');
+#endif
 	char src0[8] = { c0, '{', '{', x0, '}', '}', c1, 0 };
 #else
 	IN_ARR(char, sfill, SRCB);
